@@ -23,7 +23,7 @@ pub struct CovCase {
 }
 
 pub fn gen_case(rng: &mut Rng, i: usize, maxrecs: usize) -> CovCase {
-    let k = if i % 10 == 7 { 3 } else { [1usize, 2, 3, 7, 15, 31][i % 6] };
+    let k = if i % 10 == 7 { 3 } else if i % 2 == 0 { [1usize, 2, 3, 7, 15, 31][(i / 2) % 6] } else { 1 + rng.below(31) as usize };
     let n = if i % 6 == 5 { rng.below(3) as usize } else { rng.range(1, maxrecs as u64) as usize };
     let mk = |rng: &mut Rng, n: usize, i: usize| -> Vec<Vec<u8>> {
         (0..n)
